@@ -56,7 +56,7 @@ EXPECTED_PROBES = ('cb:is_leaf', 'cb:flatten_func', 'cb:unflatten_func', 'cb:map
 # quick run before fix 414fcff)
 
 V = _C._verif if hasattr(_C, '_verif') else None
-TEMPLATES = ('T1', 'T2', 'T3', 'T4', 'T5', 'T6')
+TEMPLATES = ('T1', 'T2', 'T3', 'T4', 'T5', 'T6', 'T7')
 PKG_PREFIX = os.path.dirname(optree.__file__) + os.sep
 REGMOD = optree.registry
 
@@ -72,11 +72,11 @@ def jobs(tier, seed, flavours):
     while True:
         tpl = TEMPLATES[i % len(TEMPLATES)]
         yield {'i': i, 'seed': seed, 'tpl': tpl}
-        if i % 6 < 5 and (i // 6) % 4 == 0:
+        if i % len(TEMPLATES) != 5 and (i // len(TEMPLATES)) % 4 == 0:
             # single-switch sweep over the first task's yield points for this scenario
             for at in range(0, 48, 1 if tier == 'thorough' else 3):
-                yield {'i': i, 'seed': seed, 'tpl': tpl, 'sweep': [(i // 6) % 2, at]}
-        if tier == 'thorough' and i % 6 < 5 and (i // 6) % 16 == 1:
+                yield {'i': i, 'seed': seed, 'tpl': tpl, 'sweep': [(i // len(TEMPLATES)) % 2, at]}
+        if tier == 'thorough' and i % len(TEMPLATES) != 5 and (i // len(TEMPLATES)) % 16 == 1:
             # two-switch sweep: A runs a steps, B runs b steps, A runs to its end, then the rest
             for a in range(0, 40, 2):
                 for b in range(1, 40, 3):
@@ -474,6 +474,7 @@ def tpl_T3(sim, tape, viol, keys, desc, cb, job):
 
     def flattener(i):
         how = tape.draw(3, 'fl-how')
+        nil = bool(tape.draw(2, 'fl-nil'))
 
         def pred(x):
             U._h('is_leaf')
@@ -484,11 +485,11 @@ def tpl_T3(sim, tape, viol, keys, desc, cb, job):
                 a = sim.steps
                 try:
                     if how == 0:
-                        leaves, spec = optree.tree_flatten(tree, is_leaf=pred, namespace=ns)
+                        leaves, spec = optree.tree_flatten(tree, is_leaf=pred, namespace=ns, none_is_leaf=nil)
                     elif how == 1:
-                        _, leaves, spec = optree.tree_flatten_with_path(tree, is_leaf=pred, namespace=ns)
+                        _, leaves, spec = optree.tree_flatten_with_path(tree, is_leaf=pred, namespace=ns, none_is_leaf=nil)
                     else:
-                        leaves = list(optree.tree_iter(tree, is_leaf=pred, namespace=ns))
+                        leaves = list(optree.tree_iter(tree, is_leaf=pred, namespace=ns, none_is_leaf=nil))
                         spec = None
                     windows.append((a, sim.steps, how, leaves, spec, None))
                 except BaseException as e:  # noqa: BLE001
@@ -628,6 +629,85 @@ def tpl_T5(sim, tape, viol, keys, desc, cb, job):
 
     def cleanup():
         scn.close()
+    return {'cleanup': cleanup}
+
+
+# -------------------------------------------------------------------------------------------------- T7
+def tpl_T7(sim, tape, viol, keys, desc, cb, job):
+    """unregister || register of the SAME (type, namespace): the outcome must equal one of the two serial orders."""
+    pool = (U.CD, U.NTM, U.MetaHook('FreshTM7', (tuple,), {}), U.PM)
+    cls = pool[tape.draw(len(pool), 't7-cls')]
+    ns = 'race7'
+    f_old = U.Funcs(cls, 800, tape.draw(4, 'style'))
+    f_new = U.Funcs(cls, 801, tape.draw(4, 'style2'))
+    U.HOOK = None
+    optree.register_pytree_node(cls, f_old.flatten, f_old.unflatten, namespace=ns)
+    res = {}
+    inst = make_instance(cls)
+    set_policy(sim, tape, job)
+
+    def unreg(task):
+        try:
+            optree.unregister_pytree_node(cls, namespace=ns)
+            res['unregister'] = 'ok'
+        except ValueError:
+            res['unregister'] = 'ValueError'
+
+    def reg(task):
+        try:
+            optree.register_pytree_node(cls, f_new.flatten, f_new.unflatten, namespace=ns)
+            res['register'] = 'ok'
+        except ValueError:
+            res['register'] = 'ValueError'
+
+    obs = []
+
+    def observer(task):
+        for _ in range(2):
+            obs.append(outcome(lambda s: optree.tree_flatten([inst], namespace=ns, none_is_leaf=bool(len(obs) % 2)), None))
+
+    order = tape.draw(2, 't7-order')
+    for name, fn in ((('unregister', unreg), ('register', reg)) if order == 0 else (('register', reg), ('unregister', unreg))):
+        sim.spawn(name, fn)
+    sim.spawn('observer', observer)
+    desc.update({'class': cls.__name__})
+    U.HOOK = cb
+    sim.run()
+    U.HOOK = None
+    final_f = None
+    if sim.deadlock is None and not sim.engine_blocks:
+        pair = (res.get('unregister'), res.get('register'))
+        if pair == ('ok', 'ok'):
+            final_f = f_new  # serial order: unregister ; register
+        elif pair == ('ok', 'ValueError'):
+            final_f = None   # serial order: register (fails, still registered) ; unregister
+        else:
+            viol('not-sequential', 'T7:%s' % cls.__name__, 'unregister || register of one (type, namespace): outcomes %r match no serial order' % (res,))
+            pair = None
+        if pair is not None:
+            h = optree.register_pytree_node.get(cls, namespace=ns)
+            mirror_f = getattr(getattr(h, 'flatten_func', None), '__self__', None) if h is not None and h.namespace == ns else None
+            if mirror_f is not final_f:
+                viol('mirror-mismatch', 'T7:%s' % cls.__name__, 'after outcomes %r the Python registry shows rid %r, a serial execution gives %r' % (
+                    res, getattr(mirror_f, 'rid', None), getattr(final_f, 'rid', None)))
+            if V is not None:
+                eng = engine_registry_model()
+                for nil in (False, True):
+                    e = eng.get((nil, ns, cls))
+                    eng_f = getattr(e[0], '__self__', None) if e is not None else None
+                    if eng_f is not final_f:
+                        viol('engine-mismatch', 'T7:%s' % cls.__name__, 'after outcomes %r the engine registry (none_is_leaf=%s) holds rid %r, a serial execution gives %r' % (
+                            res, nil, getattr(eng_f, 'rid', None), getattr(final_f, 'rid', None)))
+        for o in obs:
+            if o[0] == 'exc' and not isinstance(o[1], EngineWouldBlock):
+                viol('not-sequential', 'T7:observer', 'observer flatten raised %s' % describe_outcome(o))
+        keys.add('T7|%s' % (pair,))
+
+    def cleanup():
+        try:
+            optree.unregister_pytree_node(cls, namespace=ns)
+        except ValueError:
+            pass
     return {'cleanup': cleanup}
 
 
